@@ -3,6 +3,7 @@ Theorems: Props/C16.lean over Model/Decoder.lean (probe independence, rejected i
 isolation itself is VALIDATED: several real decoders/encoders alive at once, each compared with its own model instance (T3)."""
 import common
 import deccorr
+import harness
 
 PROP_FILES = ["N2k/Props/C16.lean"]
 LEAN_TARGETS = ["N2k.Props.C16"]
@@ -58,6 +59,9 @@ def search(ctx, broken, corr_broken):
     if not hit:
         hit, n2 = deccorr.monitor_rejected(ctx, 40, 60)
         n += n2
+    if not hit:
+        hit, n3 = deccorr.monitor_datapage(ctx)
+        n += n3
     LAST_SEARCH_CANDIDATES = n
     if hit:
         return [{"key": f"C16/{hit['kind']}/{common.short_hash(hit)}", "what": hit["what"], "replay": hit}]
@@ -65,6 +69,10 @@ def search(ctx, broken, corr_broken):
 
 
 def replay(rp):
+    if rp.get("kind") == "datapage":
+        harness.load_repo()
+        why = deccorr.datapage_probe(rp["pgn"], rp["prio"], rp["src"], rp["dst"], bytes.fromhex(rp["data"]), rp["first_twin"])
+        return why is None, why or "holds now"
     if rp.get("kind") not in ("isolation", "probe", "rejected-input"):
         return False, "not an input replay: " + str(rp.get("broken_theorems") or rp.get("broken_correspondence"))[:500]
     outs = deccorr.replay_history(rp)
